@@ -65,6 +65,7 @@ type Env struct {
 	assume    []string
 	exhaust   bool
 	level     string
+	violPhase map[string]int // phase -> highest count of one signature violated in it
 	violSeen  map[string]int
 	curPhase  string
 	curCase   int
@@ -105,9 +106,16 @@ func (e *Env) CaseRand(phase string, i int) *rand.Rand {
 // Cases runs fn for i in [0,n) with a per-case PRNG, honouring the replay
 // filter and writing the case to the write-ahead log before executing it.
 func (e *Env) Cases(phase string, n int, fn func(i int, r *rand.Rand)) {
+	start := time.Now()
 	for i := 0; i < n; i++ {
 		if !e.Selected(phase, i) {
 			continue
+		}
+		// a run that has already found the same violation three times in this phase and is slow (each such case
+		// may cost a watchdog) stops the phase: the verdict is settled, the rest would only repeat it
+		if time.Since(start) > 90*time.Second && e.repeatedViolation(phase) {
+			e.Count("cases_skipped_after_repeated_violation."+phase, int64(n-i))
+			break
 		}
 		e.Begin(phase, i, "")
 		fn(i, e.CaseRand(phase, i))
@@ -189,10 +197,22 @@ func (e *Env) Sample(v any) {
 
 // Violate records a refuted case. At most a few witnesses per signature are
 // kept; all are counted.
+func (e *Env) repeatedViolation(phase string) bool {
+	e.mu.Lock()
+	defer e.mu.Unlock()
+	return e.violPhase[phase] >= 3
+}
+
 func (e *Env) Violate(sig, msg string, witness any) {
 	e.mu.Lock()
 	defer e.mu.Unlock()
 	e.violSeen[sig]++
+	if e.violPhase == nil {
+		e.violPhase = map[string]int{}
+	}
+	if e.violSeen[sig] > e.violPhase[e.curPhase] {
+		e.violPhase[e.curPhase] = e.violSeen[sig]
+	}
 	e.counters["violations_total"]++
 	if e.violSeen[sig] > 3 || len(e.viol) > 200 {
 		return
